@@ -1,4 +1,5 @@
 import DirectVerif.Lemmas.C16Module
+import DirectVerif.Lemmas.C16Events
 /-!
 # C16 — an optimiser step uses the mean gradient of all accumulated batches
 
@@ -294,6 +295,160 @@ theorem oom_skip_mid_window (ops : Ops P O G B L Sc) (lrAt : Nat → L) (cfg : C
   have hs1 : s1.grad = ops.zero := rfl
   rw [hs1, Nat.add_assoc]
 
+/-! ## between iterations: validation rounds, checkpoints, log writes, the kill path, stop and resume
+
+`C16E.history` (`Model/C16Events.lean`) runs processes of `Engine.train` with everything the loop body does around the
+gradient statements, interpreting the table of touching statements that the translator regenerates from `validation_loop`,
+`evaluate`, `reconstruct_volumes`, `checkpoint_model_at_interval`, `Checkpointer.save`, `write_to_logs…`,
+`checkpoint_and_write_to_logs`, `log_first_training_example_and_model` and the prologue of `Engine.train`
+(`Bridge/C16.lean : between_table_wf`).  The driver executes the same definitions against the real `Engine.train`. -/
+
+open DirectVerif.C16E in
+/-- **Nothing between two iterations touches gradients, optimiser, scheduler or scaler**: under a well-formed table every
+call site other than the prologue is the identity on the trainer state (and the prologue's `zero_grad()` is the identity
+on a process that starts with empty gradients). -/
+theorem between_events_leave_state (ops : Ops P O G B L Sc) (lrAt : Nat → L) (tbl : C16E.Table)
+    (h : wfBetween tbl = true) (hasVal : Bool) (s : St P O G Sc) :
+    (∀ st, st ≠ Site.prologue → site tbl ops lrAt hasVal st s = s) ∧
+    (s.grad = ops.zero → site tbl ops lrAt hasVal .prologue s = s) :=
+  ⟨fun st hst => site_of_wf ops lrAt tbl h hasVal st hst s, site_prologue_of_wf ops lrAt tbl h hasVal s⟩
+
+open DirectVerif.C16E in
+/-- **Events do not disturb accumulation**: a process that starts from scratch and is not killed is, on the trainer state,
+the plain run of `num_iterations` loop bodies — whatever `validation_steps`, `checkpoint_steps`, `start_with_validation`
+are and whether or not validation data is configured; so every theorem above applies to it. -/
+theorem events_do_not_disturb_accumulation (ops : Ops P O G B L Sc) (lrAt : Nat → L) (cfg : Cfg) (e : EvCfg)
+    (batch : Nat → B) (tbl : C16E.Table) (h : wfBetween tbl = true) (rs : Int → Int → Int) (init : St P O G Sc)
+    (hg : init.grad = ops.zero) (p : Proc) (hk : p.kill = none) :
+    (runProc tbl rs ops lrAt cfg e batch init none p).s = runRange ops lrAt cfg batch init 0 p.total ∧
+    (runProc tbl rs ops lrAt cfg e batch init none p).dead = false := by
+  have hstart : procStart tbl rs ops lrAt cfg e init none p = ⟨0, init, none, [], false⟩ := by
+    unfold procStart
+    have : (if p.resume then (none : Option (Nat × Snap P O Sc)) else none) = none := by split <;> rfl
+    simp only [this, site_prologue_of_wf ops lrAt tbl h e.hasVal init hg]
+  have := runFrom_eq_runRange ops lrAt cfg e batch tbl h p ⟨0, init, none, [], false⟩ 0 p.total rfl
+    (fun j hj => by rw [hk] at hj; cases hj)
+  simp only [runProc, hstart, Nat.sub_zero]
+  exact ⟨this.1, this.2.1⟩
+
+open DirectVerif.C16E in
+/-- **A window inside a process with events still delivers the mean**: `k` iterations from a window boundary of a live
+process, with whatever validation rounds / checkpoints / log writes fall inside the window. -/
+theorem accumulated_step_is_mean_with_events [AddCommGroup G] [Module ℚ G]
+    (grad : P → B → G) (clip : G → G) (opt : L → P → O → G → P × O) (supd : Sc → Sc)
+    (lrAt : Nat → L) (cfg : Cfg) (e : EvCfg) (batch : Nat → B) (tbl : C16E.Table) (h : wfBetween tbl = true)
+    (p : Proc) (ps : PS P O G Sc) (it0 : Nat) (hd : ps.dead = false)
+    (hkill : ∀ j, p.kill = some j → j < it0 ∨ it0 + cfg.k ≤ j)
+    (hk : 0 < cfg.k) (h0 : it0 % cfg.k = 0) (hg : ps.s.grad = 0) :
+    let mean : G := ((cfg.k : ℚ))⁻¹ • ∑ j ∈ Finset.range cfg.k, grad ps.s.theta (batch (it0 + j))
+    let g := if cfg.clipOn then clip mean else mean
+    (runFrom tbl (moduleOps grad clip opt supd : Ops P O G B L Sc) lrAt cfg e batch p ps it0 cfg.k).s =
+      { theta := (opt (lrAt (ps.s.epoch + cfg.k - 1)) ps.s.theta ps.s.ostate g).1,
+        ostate := (opt (lrAt (ps.s.epoch + cfg.k - 1)) ps.s.theta ps.s.ostate g).2,
+        grad := 0, epoch := ps.s.epoch + cfg.k, scaler := supd ps.s.scaler } := by
+  intro mean g
+  rw [(runFrom_eq_runRange (moduleOps grad clip opt supd : Ops P O G B L Sc) lrAt cfg e batch tbl h p ps it0 cfg.k hd
+    hkill).1]
+  exact accumulated_step_is_mean grad clip opt supd lrAt cfg batch ps.s it0 hk h0 hg
+
+open DirectVerif.C16E in
+/-- **The schedule stays in step with the iteration counter across every history of kills, clean stops and resumes**
+(also inside accumulation windows): when `start_iter = label + 1` (`Bridge/C16.lean : resume_start_eq`), every completed
+iteration `t` of every process ran with `last_epoch = t` — the learning rate in effect is `lrAt t` — and left
+`last_epoch = t + 1`; every checkpoint with label `l` holds `last_epoch = l + 1`. -/
+theorem lr_in_step_across_resume (ops : Ops P O G B L Sc) (lrAt : Nat → L) (cfg : Cfg) (e : EvCfg) (batch : Nat → B)
+    (tbl : C16E.Table) (h : wfBetween tbl = true) (rs : Int → Int → Int)
+    (hrs : ∀ label : Nat, rs (label : Int) (cfg.k : Int) = (label : Int) + 1)
+    (init : St P O G Sc) (h0 : init.epoch = 0) (hg0 : init.grad = ops.zero) (procs : List Proc) :
+    ∀ ps ∈ history tbl rs ops lrAt cfg e batch init none procs,
+      (∀ r ∈ ps.recs, r.epochBefore = r.it ∧ r.epochAfter = r.it + 1) ∧
+      (∀ lab c, ps.latest = some (lab, c) → c.epoch = lab + 1) :=
+  history_inv ops lrAt cfg e batch tbl h rs hrs init h0 hg0 procs none (fun _ _ hl => by cases hl)
+
+open DirectVerif.C16E in
+/-- **The scheduler advances exactly `num_iterations` times over a history**: a process that reaches its end has
+`last_epoch = start + (num_iterations − start)`, i.e. `num_iterations` when it had anything left to do. -/
+theorem scheduler_steps_eq_iterations (ops : Ops P O G B L Sc) (lrAt : Nat → L) (cfg : Cfg) (e : EvCfg) (batch : Nat → B)
+    (tbl : C16E.Table) (h : wfBetween tbl = true) (rs : Int → Int → Int)
+    (hrs : ∀ label : Nat, rs (label : Int) (cfg.k : Int) = (label : Int) + 1)
+    (init : St P O G Sc) (h0 : init.epoch = 0) (hg0 : init.grad = ops.zero)
+    (latest : Option (Nat × Snap P O Sc)) (hl : LatestOK latest) (p : Proc) :
+    let ps := runProc tbl rs ops lrAt cfg e batch init latest p
+    ps.dead = false → ps.start ≤ p.total → ps.s.epoch = p.total := by
+  intro ps hd hle
+  have hst : ps.start = (procStart tbl rs ops lrAt cfg e init latest p).start :=
+    (runFrom_start ops lrAt cfg e batch tbl p _ _ _)
+  have := (runProc_inv ops lrAt cfg e batch tbl h rs hrs init h0 hg0 latest hl p).2.2 hd
+  rw [this]; rw [hst] at hle; omega
+
+/-- regression witness (seeded C16-5): `optimizer.zero_grad()` at the top of a validation round.  `k = 2`,
+`validation_steps = 3`, gradients `2, 4, …`, lr 1, 8 iterations: the validation round after iteration 6 falls inside the
+window {6, 7}; the gradient of batch 6 is dropped (`θ = −29` instead of `−36`) -/
+theorem validate_zero_grad_violates :
+    let cfg : Cfg := { k := 2 }
+    let e : C16E.EvCfg := { ckSteps := 1000000, valSteps := 3, hasVal := true }
+    let batch : Nat → Int := fun i => 2 * (i + 1)
+    let init : St Int Unit Int Unit := ⟨0, (), 0, 0, ()⟩
+    let p : C16E.Proc := { total := 8, kill := none, swv := false, resume := false }
+    (C16E.runProc C16E.tableValZero C16E.resumeStart Toy.intOps (fun _ => (1 : Int)) cfg e batch init none p).s.theta = -29 ∧
+    (C16E.runProc C16E.table C16E.resumeStart Toy.intOps (fun _ => (1 : Int)) cfg e batch init none p).s.theta = -36 ∧
+    -- without validation data the early return hides the statement
+    (C16E.runProc C16E.tableValZero C16E.resumeStart Toy.intOps (fun _ => (1 : Int)) cfg { e with hasVal := false } batch init
+      none p).s.theta = -36 := by
+  decide
+
+/-- regression witness (seeded C16-6): `start_iter -= start_iter % gradient_steps` without rewinding the restored
+scheduler.  `k = 2`, clean stop after iteration 6 (label 6), resume up to 10 iterations: the resumed process starts at
+iteration 6 with `last_epoch = 7`, runs iteration 6 a second time and ends with `last_epoch = 11` for 10 iterations -/
+theorem resume_rewind_violates :
+    let cfg : Cfg := { k := 2 }
+    let e : C16E.EvCfg := { ckSteps := 1000000, valSteps := 1000000, hasVal := false }
+    let batch : Nat → Int := fun i => 2 * (i + 1)
+    let init : St Int Unit Int Unit := ⟨0, (), 0, 0, ()⟩
+    let procs : List C16E.Proc := [{ total := 7, kill := none, swv := false, resume := true },
+                                   { total := 10, kill := none, swv := false, resume := true }]
+    let H := fun rs => (C16E.history C16E.table rs Toy.intOps (fun _ => (1 : Int)) cfg e batch init none procs).map
+      fun ps => (ps.start, ps.s.epoch, ps.recs.map fun r => (r.it, r.epochBefore))
+    H C16E.resumeStartRewind = [(0, 7, [(0, 0), (1, 1), (2, 2), (3, 3), (4, 4), (5, 5), (6, 6)]),
+                                (6, 11, [(6, 7), (7, 8), (8, 9), (9, 10)])] ∧
+    H C16E.resumeStart = [(0, 7, [(0, 0), (1, 1), (2, 2), (3, 3), (4, 4), (5, 5), (6, 6)]),
+                          (7, 10, [(7, 7), (8, 8), (9, 9)])] := by
+  decide
+
+/-! ## mixed precision: the GradScaler protocol of the step branch -/
+
+/-- the scaler operations on a ℚ-module of gradients: `unscale_` multiplies by `1/S` -/
+def ampModuleOps [AddCommGroup G] [Module ℚ G] (clip : G → G) (grow : ℚ → ℚ) : C16E.AmpOps G ℚ :=
+  { unscale := fun S g => S⁻¹ • g, divk := fun k g => ((k : ℚ))⁻¹ • g, clip := clip, grow := grow }
+
+/-- **Under an enabled GradScaler the optimiser still receives the (clipped) mean**: `.grad` holds `S • a` (`a` = what
+was accumulated over the window, `S ≠ 0` the current scale); the step branch hands the optimiser `received a` — the
+division by `k`, the unscaling and the clipping commute the right way round: clipping sees unscaled gradients — without
+a double-`unscale_` error, and `update()` re-arms the scaler. -/
+theorem amp_delivers_unscaled_mean [AddCommGroup G] [Module ℚ G] (clip : G → G) (grow : ℚ → ℚ)
+    (cfg : Cfg) (it : Nat) (hs : (it + 1) % cfg.k = 0) (S : ℚ) (hS : S ≠ 0) (a : G) :
+    let g0 : G := if cfg.k > 1 then ((cfg.k : ℚ))⁻¹ • a else a
+    let r := C16E.ampRun C16E.ampTable (ampModuleOps clip grow) cfg it
+      { grad := S • a, scale := S, unscaled := false, delivered := none, error := false }
+    r.delivered = some (if cfg.clipOn then clip g0 else g0) ∧ r.error = false ∧ r.unscaled = false ∧ r.scale = grow S := by
+  intro g0 r
+  have e1 : S⁻¹ • ((cfg.k : ℚ))⁻¹ • S • a = ((cfg.k : ℚ))⁻¹ • a := by
+    rw [smul_comm S⁻¹, inv_smul_smul₀ hS]
+  have e2 : S⁻¹ • S • a = a := inv_smul_smul₀ hS a
+  by_cases hk : cfg.k > 1 <;> by_cases hc : cfg.clipOn = true <;>
+    simp [r, g0, C16E.ampRun, C16E.ampTable, C16E.applyAmp, evalGuard, ampModuleOps, hs, hk, hc, e1, e2]
+
+/-- regression witnesses: clipping before `unscale_` clips the *scaled* gradient (scale 8, gradient 3, clip at 4: the
+optimiser gets 0 instead of 3); `optimizer.step()` behind the scaler's back steps on the scaled gradient (24) -/
+theorem amp_order_violations :
+    let cfg : Cfg := { k := 1, clipOn := true }
+    let s0 : C16E.AmpSt Int Int := { grad := 24, scale := 8 }
+    (C16E.ampRun C16E.ampTable C16E.intAmp cfg 0 s0).delivered = some 3 ∧
+    (C16E.ampRun C16E.ampTableClipFirst C16E.intAmp cfg 0 s0).delivered = some 0 ∧
+    (C16E.ampRun C16E.ampTableDirect C16E.intAmp { k := 1 } 0 s0).delivered = some 24 ∧
+    C16E.wfAmp C16E.ampTableClipFirst = false ∧ C16E.wfAmp C16E.ampTableDirect = false := by
+  decide
+
 /-! ## non-vacuity: the hypotheses are satisfiable and the statements say something -/
 
 example : (runRange Toy.intOps (fun _ => (1 : Int)) { k := 3 } (fun i => 3 * (i + 1))
@@ -305,5 +460,11 @@ example : delivered Toy.intOps (fun _ => (1 : Int)) { k := 2 } (fun i => 2 * (i 
     (⟨0, (), 0, 0, ()⟩ : St Int Unit Int Unit) 0 5 = [14, 6] ∧
   seen Toy.intOps (fun _ => (1 : Int)) { k := 2 } (fun i => 2 * (i + 1))
     (⟨0, (), 0, 0, ()⟩ : St Int Unit Int Unit) 0 5 = [10, 8, 6, 4, 2] := by decide
+
+example : C16E.wfBetween C16E.table = true ∧ C16E.wfBetween C16E.tableValZero = false := by decide
+
+example : C16E.wfAmp C16E.ampTable = true := by decide
+
+example : ∀ label : Nat, C16E.resumeStart (label : Int) ((2 : Nat) : Int) = (label : Int) + 1 := fun _ => rfl
 
 end DirectVerif.C16
